@@ -707,17 +707,25 @@ impl IdlArcSqliteWriteTransaction<'_> {
             })?;
 
         // Ensure the db commit succeeds first.
+        #[cfg(feature = "verif-hooks")]
+        crate::verif_hooks::c06::pause(crate::verif_hooks::c06::W_SQL);
         db.commit()?;
 
         // Can no longer fail from this point.
+        #[cfg(feature = "verif-hooks")]
+        crate::verif_hooks::c06::pause(crate::verif_hooks::c06::W_OPTS);
         op_ts_max.commit();
         name_cache.commit();
+        #[cfg(feature = "verif-hooks")]
+        crate::verif_hooks::c06::pause(crate::verif_hooks::c06::W_IDL);
         idx_exists_cache.commit();
         idl_cache.commit();
         allids.commit();
         maxid.commit();
         keyhandles.commit();
         // Unlock the entry cache last to remove contention on everything else.
+        #[cfg(feature = "verif-hooks")]
+        crate::verif_hooks::c06::pause(crate::verif_hooks::c06::W_ENTRY);
         entry_cache.commit();
 
         Ok(())
@@ -1371,12 +1379,18 @@ impl IdlArcSqlite {
     pub fn read(&self) -> Result<IdlArcSqliteReadTransaction<'_>, OperationError> {
         // IMPORTANT! Always take entrycache FIRST
         let entry_cache_read = self.entry_cache.read();
+        #[cfg(feature = "verif-hooks")]
+        crate::verif_hooks::c06::pause(crate::verif_hooks::c06::R_DB);
         let db_read = self.db.read()?;
+        #[cfg(feature = "verif-hooks")]
+        crate::verif_hooks::c06::pause(crate::verif_hooks::c06::R_IDL);
         let idl_cache_read = self.idl_cache.read();
         let name_cache_read = self.name_cache.read();
         let idx_exists_cache_read = self.idx_exists_cache.read();
         let allids_read = self.allids.read();
 
+        #[cfg(feature = "verif-hooks")]
+        crate::verif_hooks::c06::pause(crate::verif_hooks::c06::R_BE_TAIL);
         Ok(IdlArcSqliteReadTransaction {
             db: db_read,
             entry_cache: entry_cache_read,
